@@ -10,7 +10,7 @@ replacements, copy, deepcopy); after every operation the instance must be observ
 import copy
 import itertools
 from collections.abc import Mapping, Sequence, Set
-from typing import Any
+from typing import Any, Literal
 
 from hv import boot  # noqa: F401
 from hv import annkit as ak
@@ -22,8 +22,8 @@ from haiway import MISSING, Missing, State  # noqa: E402
 ID = "C04"
 TECHNIQUE = "explicit-state search over operation histories (mutation attempts, updated, copy, deepcopy) on real State instances with a 'value never changes' reference, plus the exhaustive equality pair matrix"
 RULE = (
-    "catalogue of 20 state classes (scalars, Sequence/Set/Mapping/tuple attributes, nested, "
-    "recursive, generic-specialised, Missing-typed, defaulted, containers of containers, subclass, "
+    "catalogue of 22 state classes (scalars, Sequence/Set/Mapping/tuple attributes, nested, "
+    "recursive, generic-specialised, Missing-typed, Literal-typed, defaulted, containers of containers (outer container passed as list or as tuple), subclass, "
     "Any-typed) x 2-3 instances built from mutable argument containers (also read-only views of "
     "dicts the caller keeps) x every operation history up to length L (mutation attempts, updated "
     "with valid / unknown / invalid / falsy-invalid / equal-but-invalid replacements, copy, deepcopy); "
@@ -97,6 +97,16 @@ class OptS(State):
     o: Sequence[int] | None = None
 
 
+class SeqSet(State):
+    groups: Sequence[Set[int]]
+
+
+class Lit(State):
+    mode: Literal["fast", "safe"] = "fast"
+    level: Literal["lo", "hi"] | Missing = MISSING  # (strings: an ==-equal float for an int Literal is unspecified)
+    name: str = "n"
+
+
 class Sub(Scalars):
     pass
 
@@ -146,7 +156,9 @@ CATALOGUE: dict[str, tuple[type, list]] = {
     "Defaults": (Defaults, [lambda: {}, lambda: {"y": [5]}]),
     "SeqSeq": (SeqSeq, [lambda: {"rows": [[1], [2, 3]]}]),
     "MapSeq": (MapSeq, [lambda: {"m": {"ab": [1, 2]}}]),
-    "SeqMap": (SeqMap, [lambda: {"rows": [{"ab": 1}]}, lambda: {"rows": [_proxy({"ab": 1})]}]),
+    "SeqMap": (SeqMap, [lambda: {"rows": [{"ab": 1}]}, lambda: {"rows": [_proxy({"ab": 1})]}, lambda: {"rows": ({"ab": 1}, {"k": 2})}]),
+    "SeqSet": (SeqSet, [lambda: {"groups": [{1, 2}]}, lambda: {"groups": ({1, 2}, {3})}]),
+    "Lit": (Lit, [lambda: {}, lambda: {"mode": "safe", "level": "hi"}]),
     "OptS": (OptS, [lambda: {}, lambda: {"o": [1]}]),
     "AnyS": (AnyS, [lambda: {"v": [1, 2, 3]}, lambda: {"v": {"k": [1]}, "w": [4]}, lambda: {"v": range(3)}]),
 }
@@ -171,6 +183,9 @@ REPLACE: dict[str, dict[str, tuple]] = {
     "SeqSeq": {"rows": (lambda: [[9]], [["bad"]], 0)},
     "MapSeq": {"m": (lambda: {"q": [9]}, {"q": ["bad"]}, 0)},
     "SeqMap": {"rows": (lambda: [{"q": 9}], [{"q": "bad"}], 0)},
+    "SeqSet": {"groups": (lambda: ({9}, {8}), [{"bad"}], 0)},
+    # invalid replacements of the SAME plain type as the current value
+    "Lit": {"mode": (lambda: "safe", "turbo", ""), "level": (lambda: "lo", "mid", 0), "name": (lambda: "z", 7, 0)},
     "OptS": {"o": (lambda: [9], ["bad"], 0)},
     "AnyS": {"v": (lambda: [7], None, None), "w": (lambda: [9], ["bad"], 0)},
 }
